@@ -25,7 +25,11 @@ if [ $rc_suite -ne 0 ]; then
   # the sleep-timed index/lock test is flaky on a loaded machine at HEAD too: retry that package alone
   others=$(grep "^FAIL" "$base/suite.log" | grep -v "index/lock" | grep -v "^FAIL$" | wc -l)
   if [ "$others" -eq 0 ]; then
-    go test -vet=off -count=1 ./index/lock/ > "$base/lock.log" 2>&1 && rc_suite=0
+    # (TestOpenExclusiveThenOpenExclusive sleeps 1 s for a child process to start: fails at HEAD as well when the machine is saturated)
+    for try in 1 2 3 4 5; do
+      if go test -vet=off -count=1 ./index/lock/ > "$base/lock.log" 2>&1; then rc_suite=0; break; fi
+      sleep 5
+    done
   fi
 fi
 python3 - "$D" "$rc_head" "$rc_build" "$rc_mut" "$rc_suite" "$base" <<'PY'
